@@ -2,7 +2,7 @@
 META = {
     "explanation": "bus_dispatch / bus_dispatch_matches / send_one_message of the real bus/dispatch.c are symbolically executed with every callee a stub whose outcome is a "
                    "solver variable; a ghost event trace lets the assertions speak about ALL paths: header sanitising and sender stamping precede every routing action, etc.",
-    "outside": ["the byte-level effect of the three header edits (C12)", "that receivers see the stamped bytes on the socket", "unique-name minting arithmetic beyond C03.b"],
+    "outside": ["that receivers see the stamped bytes on the socket", "unique-name minting arithmetic beyond C03.b"],
 }
 def dispatch_jobs(group):
     J = []
@@ -26,4 +26,12 @@ def jobs(tier):
                  unwind=5, unwindset=["strcmp.0:50"], extra=["--nondet-static"], timeout=300, encodes=["bus_driver_handle_hello", "create_unique_client_name", "bus_driver_send_welcome_message"],
                  stubs=["limits / complete / welcome / ensure = outcome stubs with order stamps"],
                  bounds="one Hello from an active or inactive connection, every callee outcome symbolic", shape="Hello"))
-    return J
+    # C03.d: byte-level effect of the sanitising edits — the C12 harness for stripping unknown fields (codes 11..255 incl. >= 128),
+    # deleting CONTAINER_INSTANCE (10) and setting SENDER (7) to a shorter / longer value, re-run under this property
+    import importlib.util, os
+    p = os.path.join(os.path.dirname(__file__), "C12.py")
+    spec = importlib.util.spec_from_file_location("vfjobs_x_C12", p); m = importlib.util.module_from_spec(spec); m.Job = Job; spec.loader.exec_module(m)
+    for j in m.jobs("thorough"):
+        if ".strip." in j.name or ".delete10." in j.name or ".set7." in j.name:
+            j.group = "C03.d"; j.tiers = ("quick", "thorough") if (".strip." in j.name or j.name.endswith(".le")) else ("thorough",); J.append(j)
+    return [j for j in J if tier in j.tiers]
